@@ -8,6 +8,7 @@ import (
 	"bytes"
 	"fmt"
 	"image/color"
+	"io"
 	"math"
 	"os"
 	"path/filepath"
@@ -332,10 +333,49 @@ func c05Write(matFile string, ms []c05Mesh) (string, []byte) {
 	return ans, text
 }
 
-func c05Read(text []byte) (string, []obj.ObjMesh) {
+func c05Read(text []byte) (string, []obj.ObjMesh) { return c05ReadVia(bytes.NewReader(text)) }
+
+// the same text through the reader family (see util_objstl.go): model line per reader, oracle readers_agree
+func (c *Ctx) c05Readers(text []byte, all bool) {
+	kinds := objstlReaders
+	if !all {
+		k := c.Rng.Intn(len(objstlReaders))
+		kinds = objstlReaders[k : k+1]
+	}
+	var as []string
+	for _, k := range kinds {
+		a, _ := c05ReadVia(k.mk(text))
+		c.Emit("c05.read", hx(text), a)
+		c.Note("reader." + k.name)
+		as = append(as, hx([]byte(a)))
+	}
+	if all {
+		c.Emit("c05.holds.readers_agree", fmt.Sprintf("%d %s", len(as), strings.Join(as, " ")), "true")
+	}
+}
+
+// the REAL writer on the other end of a pipe: obj.WriteMeshes → io.Pipe → obj.ReadMesh
+func (c *Ctx) c05PipeFromWriter(matFile string, ms []c05Mesh, text []byte) {
+	pool := map[string]*modeling.Material{}
+	in := make([]obj.ObjMesh, len(ms))
+	for i, m := range ms {
+		in[i] = obj.ObjMesh{Name: m.name, Mesh: m.mesh(pool)}
+	}
+	pr, pw := io.Pipe()
+	go func() {
+		defer func() { recover(); pw.Close() }()
+		obj.WriteMeshes(in, matFile, pw)
+	}()
+	a, _ := c05ReadVia(pr)
+	c.Emit("c05.read", hx(text), a)
+	c.Note("reader.pipe-from-WriteMeshes")
+}
+
+func c05ReadVia(in io.Reader) (string, []obj.ObjMesh) {
+	defer objstlDrain(in)
 	var gs []obj.ObjMesh
 	ans := Guard(func() string {
-		g, libs, err := obj.ReadMesh(bytes.NewReader(text))
+		g, libs, err := obj.ReadMesh(in)
 		if err != nil {
 			return "err"
 		}
@@ -379,6 +419,8 @@ func (c *Ctx) c05SceneCase(o c05Opts, holds string) {
 	}
 	rans, gs := c05Read(text)
 	c.Emit("c05.read", hx(text), rans)
+	c.c05PipeFromWriter(matFile, ms, text)
+	c.c05Readers(text, c.Rng.Intn(8) == 0)
 	if gs == nil {
 		c.Note("read-of-write." + rans)
 		return
@@ -631,6 +673,7 @@ func (c *Ctx) c05TextCase() {
 	text := []byte(t)
 	rans, gs := c05Read(text)
 	c.Emit("c05.read", hx(text), rans)
+	c.c05Readers(text, c.Rng.Intn(8) == 0)
 	c.Note("text-read." + strings.SplitN(rans, " ", 2)[0])
 	if gs == nil {
 		return
@@ -828,6 +871,10 @@ func (c *Ctx) c05BigCase(nv, nt int, attr int, ranges int, span int, resave bool
 	}
 	rans, gs := c05Read(text)
 	c.Emit("c05.read", hx(text), rans)
+	if nt <= 5000 {
+		c.c05PipeFromWriter("", ms, text)
+		c.c05Readers(text, true)
+	}
 	if gs == nil {
 		return
 	}
